@@ -58,7 +58,7 @@ NodeMatch(r, old) == FirstMatch(r, LAMBDA q : q.k = "N" /\ q.src = old.src /\ q.
 
 (* ------------------------------------------------------------------ reset *)
 DoReset(e) ==
-    /\ LET fails == F(WellFormed(e.g) /\ e.gok, "C01:start genome not well-formed or not expressible") IN
+    /\ LET fails == F(WellFormed(e.g) /\ WFModCells(e.g) /\ e.gok, "C01:start genome not well-formed or not expressible") IN
        IF fails = {} THEN TRUE ELSE PrintT(ToJson([l |-> l, ev |-> "reset", fails |-> fails]))
     /\ reg' = <<>> /\ nInn' = e.c[1] /\ nNode' = e.c[2] /\ dig' = PoolFn(e) /\ sLink' = {} /\ sNode' = {}
     /\ meaning' = [n \in Inns(e.g) |-> Key(GeneOf(e.g, n))]
@@ -72,7 +72,7 @@ DoDup(e) ==
             F(IsDuplicate(e.child, e.pre), "C06:copy differs from the original in a genetic field or shares an object with it")
             \cup F(e.post = e.pre, "C06:duplication modified the original")
             \cup F(OthersUnchanged(e, {e.cid}), "C06:an uninvolved genome changed")
-            \cup F(WellFormed(e.child) /\ Retains(e.child, e.pre) /\ e.gok, "C01:duplicate not well-formed / not expressible")
+            \cup F(WellFormed(e.child) /\ WFModCells(e.child) /\ Retains(e.child, e.pre) /\ e.gok, "C01:duplicate not well-formed / not expressible")
             \cup F(MeaningOK(e.child) /\ RolesOK(e.child), "C03:number with two meanings")
        IN IF fails = {} THEN TRUE ELSE PrintT(ToJson([l |-> l, ev |-> "dup", fails |-> fails]))
     /\ dig' = PoolFn(e)
